@@ -914,6 +914,16 @@ fn conv_kind(k: IKind) -> InputKind {
 }
 
 /// run a pipeline case on the real library (single thread, virtual time)
+/// holds a value whose `Drop` has side effects; during a panic the value is leaked instead of dropped
+pub struct ForgetOnPanic<T>(pub Option<T>);
+impl<T> Drop for ForgetOnPanic<T> {
+  fn drop(&mut self) {
+    if std::thread::panicking() {
+      std::mem::forget(self.0.take());
+    }
+  }
+}
+
 pub fn exec(case: &PCase, sample_closed: bool) -> Trace {
   exec_fb(case, sample_closed, &[])
 }
@@ -935,7 +945,9 @@ pub fn exec_fb(case: &PCase, sample_closed: bool, fb: &[i64]) -> Trace {
     probe.fb = Some((env.hot[0].clone(), fb.to_vec()));
   }
   let mut sub: Option<BSub> = Some(p.actual_subscribe(probe.clone()));
-  let mut guard: Option<SubscriptionGuard<BSub>> = None;
+  // (a guard must not run its unsubscribe while a panic is unwinding through this frame: with a cell still locked
+  // further up the stack the lock hook would panic a second time and abort the process)
+  let mut guard: ForgetOnPanic<SubscriptionGuard<BSub>> = ForgetOnPanic(None);
   let mut tr = Trace::default();
   let prompt = case.mode == SchedMode::Fifo;
   if prompt {
@@ -949,7 +961,7 @@ pub fn exec_fb(case: &PCase, sample_closed: bool, fb: &[i64]) -> Trace {
   }
   let uses_guard = case.script.iter().any(|s| matches!(s, Step::DropGuard));
   if uses_guard {
-    guard = sub.take().map(|s| s.unsubscribe_when_dropped());
+    guard.0 = sub.take().map(|s| s.unsubscribe_when_dropped());
   }
   for (k, st) in case.script.iter().enumerate() {
     crate::stamp::set(k);
@@ -985,7 +997,7 @@ pub fn exec_fb(case: &PCase, sample_closed: bool, fb: &[i64]) -> Trace {
         }
       }
       Step::DropGuard => {
-        if let Some(g) = guard.take() {
+        if let Some(g) = guard.0.take() {
           tr.live_at_unsub = vtime::live_tasks();
           tr.timers_at_unsub = vtime::pending_timers();
           drop(g);
@@ -1022,17 +1034,7 @@ pub fn exec_fb(case: &PCase, sample_closed: bool, fb: &[i64]) -> Trace {
   // everything observable has been recorded: now tear the case down for real (unsubscribing breaks the
   // reference cycles between composite subscriptions and the observers that hold them)
   crate::stamp::set(usize::MAX - 1);
-  // a still subscribed pipeline is failed first: flattening operators keep their queue of waiting inner observables in a
-  // cell that the queued closures point back to - only a terminal empties it (unsubscribing does not), and with queues
-  // of hundreds of boxed pipelines a 20 M case run would otherwise keep tens of GB alive
-  if sub.is_some() || guard.is_some() {
-    crate::run::ignoring_panics(|| {
-      for i in 0..case.kinds.len().max(1) {
-        emit(&env, conv_kind(case.kinds.get(i).cloned().unwrap_or(IKind::Subject)), i, &Ev::Er(E(250)));
-      }
-    });
-  }
-  drop(guard);
+  drop(guard.0.take());
   if let Some(s) = sub.take() {
     s.unsubscribe();
   }
